@@ -42,10 +42,14 @@ def stream_case(case):
     m = fk.load()
     ap = m.adb_protocol
     ap.STREAM_ID_LIMIT = 2 ** 16
-    script = [{'open': 'OKAY', 'wrtes': list(st_['wrtes']), 'close': bool(st_['close'])} for st_ in case['streams']]
+    script = [{'open': 'OKAY', 'wrtes': list(st_['wrtes']), 'close': bool(st_['close']), 'echo': bool(st_.get('echo'))} for st_ in case['streams']]
+    ap.ADB_MESSAGE_LOG = bool(case.get('msglog'))      # --adb_message_log: connect() wraps the transport in the logging adapter
     dev = fk.ScriptedAdbDevice(script, merge=list(case['merge']), maxdata=case['maxdata'], cond_factory=lambda: V.VCondition(sched=s),
                                max_block_s=None)
-    conn = ap.AdbConnection.connect(dev, timeout_ms=5000)
+    try:
+      conn = ap.AdbConnection.connect(dev, timeout_ms=5000)
+    finally:
+      ap.ADB_MESSAGE_LOG = False
     streams = [conn.open_stream('svc%d:' % i, timeout_ms=5000) for i in range(len(script))]
     out = {'reads': {}, 'calls': [], 'errors': []}
 
@@ -258,8 +262,13 @@ def cases(draw, small=False):
                     'read_timeout_ms': draw(st.sampled_from([None, None, 2000])), 'write_len': write_len,
                     'write_timeout_ms': draw(st.sampled_from([None, 2000])),
                     'write2_len': draw(st.sampled_from([0, 0, 1, maxdata + 1])) if write_len else 0})
+    if wr and write_len and draw(st.integers(0, 3)) == 0:
+      streams[-1]['echo'] = True          # the device answers on this stream only after the host has written on it
   merge = draw(st.permutations([i for i, sc in enumerate(streams) for _ in range(len(sc['wrtes']) + (1 if sc['close'] else 0))]))
-  return {'streams': streams, 'merge': list(merge), 'maxdata': maxdata}
+  case = {'streams': streams, 'merge': list(merge), 'maxdata': maxdata}
+  if draw(st.integers(0, 2)) == 0:
+    case['msglog'] = True
+  return case
 
 
 @st.composite
@@ -277,7 +286,7 @@ def setup_lines():
   vmode.setup(usb=True)
   m = fk.load()
   V.monitor_lines(V.code_objects_of(m.adb_protocol.AdbStreamTransport, m.adb_protocol.AdbConnection, m.adb_protocol.AdbStream,
-                                    m.adb_message.AdbTransportAdapter))
+                                    m.adb_message.AdbTransportAdapter, m.adb_message.DebugAdbTransportAdapter))
 
 
 SWEEP_CASES = [
@@ -289,6 +298,21 @@ SWEEP_CASES = [
                  {'wrtes': ['b1'], 'close': True, 'read_len': 0, 'read_timeout_ms': None, 'write_len': 3, 'write_timeout_ms': None}],
      'merge': [1, 0, 0, 1], 'maxdata': 16},
 ]
+
+
+SWEEP_CASES.append(
+    {'streams': [{'wrtes': ['pong'], 'close': False, 'read_len': 0, 'read_timeout_ms': None, 'write_len': 4, 'write_timeout_ms': 2000, 'echo': True},
+                 {'wrtes': ['zz'], 'close': False, 'read_len': 0, 'read_timeout_ms': None, 'write_len': 2, 'write_timeout_ms': 2000, 'echo': True}],
+     'merge': [0, 1], 'maxdata': 16, 'msglog': True})
+SWEEP_CASES.append(dict(SWEEP_CASES[0], msglog=True))
+
+
+ECHO_CASES = [
+    {'streams': [{'wrtes': ['pong'], 'close': False, 'read_len': 0, 'read_timeout_ms': None, 'write_len': 4, 'write_timeout_ms': 2000, 'echo': True}],
+     'merge': [0], 'maxdata': 16, 'msglog': ml} for ml in (False, True)] + [
+    {'streams': [{'wrtes': ['a1'], 'close': False, 'read_len': 0, 'read_timeout_ms': None, 'write_len': 0, 'write_timeout_ms': None},
+                 {'wrtes': ['pong'], 'close': False, 'read_len': 0, 'read_timeout_ms': None, 'write_len': 20, 'write_timeout_ms': 2000, 'echo': True}],
+     'merge': [0, 1], 'maxdata': 16, 'msglog': True}]
 
 
 STALL_CASES = [
@@ -350,6 +374,22 @@ def run_job(job, acct):
         for sig, detail in r.violations:
           (acct.known if sig in known else acct.violation)(sig, case, detail)
     acct.exhaustive_parts.append('reader stalled 2.5 s (timeout 2 s) at every line of the message-reading path, %d base cases' % len(STALL_CASES))
+    # a request/response service (the device speaks only once it has been written to), plain and with the message log on:
+    # the writer is descheduled for 50 ms at every line of its write path, so the reader is already parked in the
+    # transport read when the write arrives - the pipe is full duplex, the write goes through and the answer wakes the reader
+    for base in ECHO_CASES:
+      r0, s0 = check(dict(base, trace=True))
+      acct.case(base, r0.nontrivial, r0.classes)
+      for sig, detail in r0.violations:
+        (acct.known if sig in known else acct.violation)(sig, base, detail)
+      pts = [k for k, tidx, tag in s0.tags if tag and tag[0] == 'line' and tag[1] in ('write', 'write_message', 'send_message', 'enqueue_message', '_send_command')]
+      for k in pts[:60]:
+        case = dict(base, plan={str(k): ['stall', 0.05]})
+        r, _ = check(case)
+        acct.case(case, True, r.classes + ['writer-stall', 'msglog' if base.get('msglog') else 'plain'])
+        for sig, detail in r.violations:
+          (acct.known if sig in known else acct.violation)(sig, case, detail)
+    acct.exhaustive_parts.append('echo service: writer stalled 50 ms at every line of the write path (message log off / on)')
     return
   if job['kind'] == 'hyp':
     hyp.search(acct, planned_cases(), lambda c: check(c)[0], seed=job['hseed'], max_examples=job['n'], known=known, shrink_budget_s=40)
